@@ -218,6 +218,15 @@ type input struct {
 	// alt: the other reading of a file whose classification (gzip content /
 	// non-gzip file) the statement leaves open; nil when there is only one
 	alt *input
+	// spelling family (spell.go): further names under which the lines of this
+	// source may be reported (the statement fixes only the name <stdin>)
+	aliases []string
+	// optional: the statement does not say whether this is an input at all (what
+	// -R reaches only through a symbolic link): read exactly once or not at all
+	optional bool
+	// mayFail (with optional): reporting it as a read error (exit status 2, the
+	// name on stderr) is accepted as well
+	mayFail bool
 }
 
 type expectation struct {
@@ -230,6 +239,28 @@ type expectation struct {
 	variant       string
 	// filled in by checkFilter: inputs with two admissible readings (input.alt)
 	readAsPlain, readAsGzip int
+	// spelling / sizeless families (spell.go)
+	sigScope                      string      // one violation per case: C06/<variant>/<sigScope>/<class of the first failed clause>
+	fifos                         []*fifoFeed // named pipes fed by the harness while the process runs
+	procfs                        string      // a procfs file whose content is read again after the run
+	procfsBefore                  []byte
+	optionalRead, optionalSkipped int
+}
+
+// mayFailReported: the exit status 2 may stem from an input about which the
+// statement is silent (input.mayFail) when stderr names it.
+func (e *expectation) mayFailReported(stderr string) bool {
+	for _, in := range e.inputs {
+		if !in.mayFail {
+			continue
+		}
+		for _, n := range append([]string{in.src}, in.aliases...) {
+			if strings.Contains(stderr, n) {
+				return true
+			}
+		}
+	}
+	return false
 }
 
 // fileInput computes what reading the file at rel (relative to t.dir) must
